@@ -8,6 +8,8 @@ run() { # patch prop name expect
   local patch=$1 prop=$2 name=$3 expect=$4
   # ONLY=C20 (or "C19|C02") restricts the run to some properties
   if [ -n "$ONLY" ] && ! echo "$prop" | grep -Eq "^($ONLY)$"; then return; fi
+  # FROM=c20i skips stored changes whose name sorts before it
+  if [ -n "$FROM" ] && [[ "$name" < "$FROM" ]]; then return; fi
   full=$(timeout 1800 $verif/tools/try_mutant.sh $patch $prop quick 2>&1 | tr '\n' ' ')
   rc=$(echo "$full" | grep -o "exit=[0-9]*" | tail -1)
   res=$(echo "$full" | cut -c1-200)
